@@ -21,7 +21,7 @@ FILE_POOL = [
     ("a.txt", "alpha\n"), ("b.html", "<html><head><title>Bee &amp; Co</title></head><body>b</body></html>\n"),
     ("read me.txt", "spaces in a name\n"), ("data.bin", "\x00\x01\x02\xff\xfe binary \r\n"),
     ("notes", "no extension\n"), ("img.gif", "GIF89a...."), ("UP.TXT", "upper\n"), ("z.tar.gz", "\x1f\x8b not really\n"),
-    ("long.txt", "line\n" * 700), ("a+b.txt", "plus\n"), ("semi;colon.txt", "semi\n"), ("empty.txt", ""),
+    ("long.txt", "line\n" * 60), ("a+b.txt", "plus\n"), ("semi;colon.txt", "semi\n"), ("empty.txt", ""),
     ("x%41.txt", "percent\n"), ("q.txt", "q\n"), ("w.txt", "w\n"),
 ]
 UTF8_FILES = [("café.txt", "utf8 name\n"), ("日本.txt", "cjk name\n")]
@@ -97,9 +97,9 @@ def gen_tree(rng, feats=None):
             p = join(d, n)
             add({"path": p, "kind": "file", "data": data, "flag": flag_for(p)})
             if rng.random() < 0.25:
-                add({"path": p + ".abstract", "kind": "file", "data": "About %s\nsecond line\n" % n, "flag": flag_for(p)})
+                add({"path": p + ".abstract", "kind": "file", "data": to_raw("About %s\nsecond line\n" % n), "flag": flag_for(p)})
         if d and rng.random() < 0.4:
-            add({"path": join(d, ".abstract"), "kind": "file", "data": "About directory %s\n" % d.split("/")[-1],
+            add({"path": join(d, ".abstract"), "kind": "file", "data": to_raw("About directory %s\n" % d.split("/")[-1]),
                  "flag": flag_for(d)})
         if rng.random() < 0.25:
             add({"path": join(d, ".hidden"), "kind": "file", "data": "dot file\n", "flag": flag_for(d)})
@@ -110,11 +110,11 @@ def gen_tree(rng, feats=None):
             blocks = "Name=Renamed %s\nPath=./%s\nNumb=1\n\nName=Elsewhere\nType=1\nPath=/other\nHost=other.example\nPort=7070\n" % (tgt, tgt)
             if len(files_here) > 1 and rng.random() < 0.5:
                 blocks += "\nType=X\nPath=./%s\n" % files_here[1]
-            add({"path": join(d, rng.choice([".Links", ".names"])), "kind": "file", "data": blocks, "flag": flag_for(d)})
+            add({"path": join(d, rng.choice([".Links", ".names"])), "kind": "file", "data": to_raw(blocks), "flag": flag_for(d)})
         elif r < 0.4 or ("gophermap" in feats and d == ""):
             tgt = files_here[0]
             gm = "iWelcome to %s\tfake\t(NULL)\t0\nplain info line\n0Relative %s\t%s\n1Other host\t/x\tother.example\t7070\n0Missing\tnot-there.txt\nhURL\tURL:http://example.org/\n" % (d or "top", tgt, tgt)
-            add({"path": join(d, "gophermap"), "kind": "file", "data": gm, "flag": flag_for(d)})
+            add({"path": join(d, "gophermap"), "kind": "file", "data": to_raw(gm), "flag": flag_for(d)})
         if rng.random() < 0.12 and files_here:
             capd = join(d, ".cap")
             if capd not in dirs:
